@@ -30,6 +30,11 @@ type c17Case struct {
 	SpinBefore  int    `json:"spin_before"` // scheduler yields between starting the pollers and calling Run
 	// RetryValid: when the first Run fails (as it must for a malformed address or a bound port) the caller
 	// retries Run on the SAME Server with a valid free address, Retries times a failing one first
+	// TimeoutMs > 0: the server is configured WithReadTimeout / WithWriteTimeout of that many ms; IdleMs: once the
+	// server is serving, nobody connects for that long (longer than the timeouts) and then a connection is made:
+	// "from the moment Ready is true until Stop is called" has no idle limit
+	TimeoutMs  int  `json:"timeout_ms,omitempty"`
+	IdleMs     int  `json:"idle_ms,omitempty"`
 	RetryValid bool `json:"retry_valid,omitempty"`
 	Retries    int  `json:"retries,omitempty"`
 }
@@ -122,7 +127,11 @@ func c17Exec(c c17Case, st *lab.Stats) *lab.Fail {
 		atomic.AddInt32(&served, 1)
 		_ = w.Write(r.NewBindResponse(gldap.WithResponseCode(gldap.ResultSuccess)))
 	})
-	s, err := gldap.NewServer(gldap.WithLogger(hclog.NewNullLogger()))
+	srvOpts := []gldap.Option{gldap.WithLogger(hclog.NewNullLogger())}
+	if c.TimeoutMs > 0 {
+		srvOpts = append(srvOpts, gldap.WithReadTimeout(time.Duration(c.TimeoutMs)*time.Millisecond), gldap.WithWriteTimeout(time.Duration(c.TimeoutMs)*time.Millisecond))
+	}
+	s, err := gldap.NewServer(srvOpts...)
 	if err != nil {
 		st.Inconclusive(err.Error())
 		return nil
@@ -142,7 +151,19 @@ func c17Exec(c c17Case, st *lab.Stats) *lab.Fail {
 		var sawTrue int32
 		var dialFail atomic.Value // string
 		var wg sync.WaitGroup
+		var probe0 func() string
+		// with timeouts configured, an exchange that itself took a good part of the timeout (busy machine) may
+		// legitimately have been ended by the server's deadline: such a probe decides nothing
 		probe := func() string {
+			t0 := time.Now()
+			msg := probe0()
+			if msg != "" && c.TimeoutMs > 0 && time.Since(t0) > time.Duration(c.TimeoutMs)*time.Millisecond/2 {
+				st.Class("slow-probe-under-timeouts(undecided)")
+				return ""
+			}
+			return msg
+		}
+		probe0 = func() string {
 			a := s.VerifListenAddr()
 			if a == nil {
 				return "Ready() == true but the server has no listener"
@@ -277,6 +298,16 @@ func c17Exec(c c17Case, st *lab.Stats) *lab.Fail {
 		if msg := probe(); msg != "" {
 			return lab.Failf("ready-but-not-listening", "Run(%q) (attempt %d on this server): %s", addr, attemptNo, msg)
 		}
+		if c.IdleMs > 0 && valid && !inUse {
+			st.Class("idle-period-longer-than-the-timeouts")
+			time.Sleep(time.Duration(c.IdleMs) * time.Millisecond)
+			if !s.Ready() {
+				return lab.Failf("ready-lost", "Run(%q): Ready() turned false after %d ms without connections although Stop was not called", addr, c.IdleMs)
+			}
+			if msg := probe(); msg != "" {
+				return lab.Failf("ready-but-not-served-after-idle", "Run(%q), server configured with read/write timeouts of %d ms, first connection after %d ms without connections: %s", addr, c.TimeoutMs, c.IdleMs, msg)
+			}
+		}
 		if !valid || inUse {
 			return lab.Failf("invalid-address-accepted", "Run(%q) (valid=%v, port in use=%v) is serving", addr, valid, inUse)
 		}
@@ -288,7 +319,7 @@ func c17Exec(c c17Case, st *lab.Stats) *lab.Fail {
 func TestC17(t *testing.T) {
 	lab.Prop[c17Case]{
 		ID: "C17", Part: "ready",
-		Rule: "rapid: listen addresses valid (127.0.0.1, localhost, empty host, [::1], bare ::1, 0.0.0.0, [::]), malformed (23 forms: empty, no port, empty port, unbalanced brackets, bad IPv4/IPv6, text, bracketed literals with junk before or after the brackets), valid forms with an out-of-range port number (port +- 65536...) and valid-but-port-already-bound (held by a plain listener of the harness or by another running gldap server), each with and without WithTLSConfig (held by the harness on both loopback families); 0..8 poller goroutines spin on Ready() from BEFORE Run is called and the first one that sees true dials immediately; GOMAXPROCS 1/2/4/16; after a failing Run the caller may retry on the SAME Server (0..2 more failing Runs, then a valid free address, pollers again); oracle = Ready false before Run; Ready true => dial succeeds and a bind is served; Run error => no poller ever saw true and Ready is false afterwards; non-trivial = failing address or pollers spinning before Run; distinct by hash",
+		Rule: "rapid: listen addresses valid (127.0.0.1, localhost, empty host, [::1], bare ::1, 0.0.0.0, [::]), malformed (23 forms: empty, no port, empty port, unbalanced brackets, bad IPv4/IPv6, text, bracketed literals with junk before or after the brackets), valid forms with an out-of-range port number (port +- 65536...) and valid-but-port-already-bound (held by a plain listener of the harness or by another running gldap server), each with and without WithTLSConfig (held by the harness on both loopback families); 0..8 poller goroutines spin on Ready() from BEFORE Run is called and the first one that sees true dials immediately; GOMAXPROCS 1/2/4/16; after a failing Run the caller may retry on the SAME Server (0..2 more failing Runs, then a valid free address, pollers again); one valid free case in six runs the server with read/write timeouts of 0/600/1500 ms and connects once more after an idle period longer than the timeouts; oracle = Ready false before Run; Ready true => dial succeeds and a bind is served (also after the idle period); Run error => no poller ever saw true and Ready is false afterwards; non-trivial = failing address or pollers spinning before Run; distinct by hash",
 		Gen: func(t *rapid.T) c17Case {
 			c := c17Case{
 				Pollers:    rapid.SampledFrom([]int{0, 1, 2, 4, 8}).Draw(t, "pollers"),
@@ -309,6 +340,10 @@ func TestC17(t *testing.T) {
 				c.HeldByGldap = rapid.Bool().Draw(t, "heldbygldap")
 			default:
 				c.Form, c.Valid = rapid.SampledFrom(c17Valid).Draw(t, "validform"), true
+			}
+			if c.Valid && !c.PortInUse && rapid.IntRange(0, 5).Draw(t, "idle") == 0 {
+				c.TimeoutMs = rapid.SampledFrom([]int{0, 600, 1500}).Draw(t, "timeoutms")
+				c.IdleMs = c.TimeoutMs + rapid.SampledFrom([]int{100, 300}).Draw(t, "idlems")
 			}
 			if (!c.Valid || c.PortInUse) && rapid.IntRange(0, 2).Draw(t, "retry") > 0 {
 				c.RetryValid = true
